@@ -6,6 +6,8 @@ import (
 	"bytes"
 	"context"
 	"fmt"
+	"google.golang.org/protobuf/encoding/protodelim"
+	"google.golang.org/protobuf/proto"
 	"regexp"
 	"sort"
 	"strings"
@@ -96,6 +98,15 @@ func (y *c02Sys) name(id string) string {
 	n := fmt.Sprintf("i%d", len(y.names))
 	y.names[id] = n
 	return n
+}
+
+// vMarshalMesh encodes a gossip message the way a peer would, without going through the code under test.
+func vMarshalMesh(e *pb.MeshSilence) ([]byte, error) {
+	var buf bytes.Buffer
+	if _, err := protodelim.MarshalTo(&buf, proto.Clone(e).(*pb.MeshSilence)); err != nil {
+		return nil, err
+	}
+	return buf.Bytes(), nil
 }
 
 func newC02Sys(snapshot []byte, old *c02Sys) *c02Sys {
@@ -284,7 +295,7 @@ func (y *c02Sys) remote(slot string, upd, end time.Time) []byte {
 	if cur.StartsAt.AsTime().After(end) {
 		cur.StartsAt = ts(end)
 	}
-	b, err := marshalMeshSilence(&pb.MeshSilence{Silence: cur, ExpiresAt: ts(end.Add(vRetention))})
+	b, err := vMarshalMesh(&pb.MeshSilence{Silence: cur, ExpiresAt: ts(end.Add(vRetention))})
 	if err != nil {
 		panic(err)
 	}
@@ -383,7 +394,7 @@ func (y *c02Sys) apply(x int) (ok bool, viol, desc string) {
 		}
 		id := "cccccccc-0000-4000-8000-000000000001"
 		sil := &pb.Silence{Id: id, MatcherSets: vMatchersA(), StartsAt: ts(now), EndsAt: ts(now.Add(2 * vU)), UpdatedAt: ts(now), Comment: "c"}
-		b, _ := marshalMeshSilence(&pb.MeshSilence{Silence: sil, ExpiresAt: ts(now.Add(2*vU + vRetention))})
+		b, _ := vMarshalMesh(&pb.MeshSilence{Silence: sil, ExpiresAt: ts(now.Add(2*vU + vRetention))})
 		if err := y.s.Merge(b); err != nil {
 			panic(err)
 		}
